@@ -40,7 +40,12 @@ def lock_jobs(rng, classes, profiles, runs_per_class, flavor="plain", ops_total=
             if extra:
                 args.update(extra)
             build = "lock_stress.%s%s" % (flavor, ("." + variant) if variant else "")
-            jobs.append(Job(build, args, timeout=timeout, tag="%s/%s" % (cls, prof), cost=min(threads, 8)))
+            rules = None
+            if flavor == "tsanclang":
+                rules = [(r"WARNING: ThreadSanitizer: data race(?:(?!==================)[\s\S])*?Location is global",
+                          "C08", "%s:data-race-on-lock-protected-payload" % cls)]
+            jobs.append(Job(build, args, timeout=timeout, tag="%s/%s" % (cls, prof), cost=min(threads, 8),
+                            stderr_rules=rules))
     return jobs
 
 
